@@ -9,8 +9,8 @@ META = {
     "level": "proof",
     "technique": "Coq proofs by induction over edge/node lists on a term-by-term Gallina transcription of the qaoa builders (Pauli sentences over Q) + vm_compute correspondence of the sentences against the real builders' pauli_rep + exhaustive-bitstring matrix-diagonal oracle",
     "design_ref": "DESIGN.md §3 C72",
-    "text": "Kernel-checked theorems (Props/C72.v) state, for ALL graphs (node list, edge list) and ALL bit assignments, that the diagonal value of the sentence built by the model of bit_driver, edge_driver (every duplicate-free reward list), maxcut, max_independent_set, min_vertex_cover and max_clique (constrained and unconstrained) equals an objective written from the documentation (minus cut size; |V|-2|S| plus 3 per violated edge up to the constant -3/4|E|; ...), plus the Z-word eigenvalue lemma. The model's sentences are evaluated inside Coq on the same generated graphs (networkx and rustworkx, empty/complete/random/parallel-edge, arbitrary node labels) as the real qp.qaoa builders and compared as canonical word->coefficient maps with the builders' pauli_rep (exact dyadic coefficients), cost AND returned mixer; for <=5 nodes every bitstring's entry of diag(qp.matrix(H)) is compared with the documented objective computed independently in Python.",
-    "note": "max_weight_cycle (loss/net-flow/out-flow/cycle_mixer) and the mixers x_mixer, xy_mixer, bit_flip_mixer are covered by correspondence (model sentence = returned pauli_rep) and, for the cycle Hamiltonians, by the Python matrix-diagonal oracle (4 s(s-1), 4(s_out-s_in)^2, sum log(c) z) only: no universally quantified theorem. numpy.log is an oracle recorded from the run; the unconstrained max_weight_cycle cost is compared up to 2^-30 (float rounding of log + integer). The docstrings of the unconstrained max_independent_set / min_vertex_cover / max_clique print the edge part with coefficient 3 where the code (3 * edge_driver) has 3/4: theorem unconstrained_doc_formula_literal_refuted; the proved objective uses the code's normalisation (penalty 3 per violated edge relative to a satisfied one). Not modelled: reward lists whose de-duplicated set minus '01' has three entries (hash-order dependent reward[0]); self-loops; rustworkx graphs with removed nodes or duplicate node payloads; rustworkx digraphs whose payloads differ from their indices; edges without weight data.",
+    "text": "15 kernel-checked theorems (Props/C72.v) state, for ALL graphs (node list, edge list, parallel edges included) and ALL bit assignments, that the diagonal value of the sentence built by the model of bit_driver, edge_driver (every duplicate-free reward list: rewarded colouring -(4-r)/4, other r/4; constant |V| for the empty/full list), maxcut (= -#cut edges), max_independent_set, min_vertex_cover, max_clique (constrained: +-(|V|-2|S|); unconstrained: + 3 per violated edge / uncovered edge / chosen non-adjacent pair, up to the constant -3/4|E|), out_flow_constraint (sum 4 s(s-1)), net_flow_constraint (sum 4 (s_out-s_in)^2) and the max_weight_cycle cost (loss, loss + 3(net+out)) equals an objective written from the documentation; plus the Z-word eigenvalue lemma, linearity of the sentence arithmetic and totality of the builders. The model's sentences are evaluated inside Coq on the same generated graphs (networkx and rustworkx, empty/complete/path/star/random, parallel edges, arbitrary integer node labels, malformed inputs) as the real qp.qaoa builders and compared as word->coefficient maps with the builders' pauli_rep (exact dyadic coefficients), cost AND returned mixer; for <=5 nodes (<=6 edge-wires) every bitstring's entry of diag(qp.matrix(H)) is additionally compared with the documented objective computed independently in Python.",
+    "note": "Correspondence only (no universally quantified theorem): the mixers x_mixer, xy_mixer, bit_flip_mixer, cycle_mixer (model sentence = documented operator expanded = returned pauli_rep) and the wire->edge mapping. numpy.log is an oracle recorded from the run; the unconstrained max_weight_cycle cost is compared up to 2^-30 and its matrix diagonal up to 1e-9 (float rounding of log + integer); everything else exactly. Documentation discrepancy (not reported as a violation): the docstrings of the unconstrained max_independent_set / min_vertex_cover / max_clique print the edge part with coefficient 3 where the code (3 * edge_driver) yields 3/4 - theorem unconstrained_doc_formula_literal_refuted; the proved objective uses the code's normalisation (a violated edge costs 3 more than a satisfied one, as edge_driver documents). Not modelled: reward lists whose de-duplicated set minus '01' has three entries (hash-order dependent reward[0]); self-loops (except the ValueError of loss_hamiltonian); rustworkx graphs with removed nodes or duplicate node payloads; rustworkx digraphs whose payloads differ from their indices; edges without weight data; string wire labels.",
     "assumptions": ["graphs are simple up to parallel edges (no self-loops); node labels are distinct integers",
                     "edge_driver theorems assume a duplicate-free reward list (with duplicates len(reward)==4 takes the constant branch; the model transcribes that, the theorem excludes it)",
                     "pauli_rep of the returned LinearCombination is taken as the operator's meaning (and cross-checked with qp.matrix for <=5 nodes / <=6 edges)"],
